@@ -89,13 +89,13 @@ def interval_step(genotype: A[i1, 2], reads: A[f8, 3], llk: float, log_unique_ha
     requires(forall(0, N, lambda y: 2 <= NA[y] and NA[y] <= reads.shape[2]))
     requires(VALIDG(genotype, NA, P, N), POSREADS(reads, CN, NA, P, N, len(reads)))
     requires(llk == LLK(reads, CN, genotype, P, N, len(reads)))
-    requires(implies(cache is not None, AMOK(cache) and cache[2] == P * N and forall(0, N, lambda y: NA[y] <= cache[0].shape[1])))
+    requires(implies(cache is not None, AMOK(cache, len(cache[0]), cache[0].shape[1], len(cache[1])) and cache[2] == P * N and forall(0, N, lambda y: NA[y] <= cache[0].shape[1])))
     requires(implies(cache is not None, COH(cache, reads, CN, P, N, len(reads))))
     raises(step_type != 0 and step_type != 1)
     modifies(genotype, cache)
     ensures(result[0] == LLK(reads, CN, genotype, P, N, len(reads)))
     ensures(VALIDG(genotype, NA, P, N))
-    ensures(implies(cache is not None, AMOK(result[1]) and result[1][2] == cache[2] and result[1][0].shape[1] == cache[0].shape[1]))
+    ensures(implies(cache is not None, AMOK(result[1], len(result[1][0]), result[1][0].shape[1], len(result[1][1])) and result[1][2] == cache[2] and result[1][0].shape[1] == cache[0].shape[1]))
     ensures(implies(cache is not None, COH(result[1], reads, CN, P, N, len(reads))))
     with defs():
         P = len(genotype)
@@ -110,7 +110,7 @@ def interval_step(genotype: A[i1, 2], reads: A[f8, 3], llk: float, log_unique_ha
         invariant(forall(0, i, lambda a: llks[a] == LLK(reads, CN, arr2(lambda x, y: SCE(old(genotype), option_labels[a, :, 0], LO, HI, x, y)), P, N, len(reads))))
         invariant(forall(0, i, lambda a: not isnan(log_accept[a]) and implies(not isninf(log_accept[a]), log_accept[a] <= 0)))
         invariant(isninf(log_accept[n_options]), not isnan(log_accept[n_options]))
-        invariant(implies(cache is not None, AMOK(cache) and cache[2] == P * N and forall(0, N, lambda y: NA[y] <= cache[0].shape[1])))
+        invariant(implies(cache is not None, AMOK(cache, len(cache[0]), cache[0].shape[1], len(cache[1])) and cache[2] == P * N and forall(0, N, lambda y: NA[y] <= cache[0].shape[1])))
         invariant(implies(cache is not None, COH(cache, reads, CN, P, N, len(reads))))
         with head():
             GPI = arr2(lambda x, y: SCE(genotype, option_labels[i, :, 0], LO, HI, x, y))
@@ -140,12 +140,12 @@ def compound_step(genotype: A[i1, 2], reads: A[f8, 3], llk: float, intervals: A[
     requires(forall(0, N, lambda y: 2 <= NA[y] and NA[y] <= reads.shape[2]))
     requires(VALIDG(genotype, NA, P, N), POSREADS(reads, CN, NA, P, N, len(reads)))
     requires(llk == LLK(reads, CN, genotype, P, N, len(reads)))
-    requires(implies(cache is not None, AMOK(cache) and cache[2] == P * N and forall(0, N, lambda y: NA[y] <= cache[0].shape[1])))
+    requires(implies(cache is not None, AMOK(cache, len(cache[0]), cache[0].shape[1], len(cache[1])) and cache[2] == P * N and forall(0, N, lambda y: NA[y] <= cache[0].shape[1])))
     requires(implies(cache is not None, COH(cache, reads, CN, P, N, len(reads))))
     modifies(genotype, cache)
     ensures(result[0] == LLK(reads, CN, genotype, P, N, len(reads)))
     ensures(VALIDG(genotype, NA, P, N))
-    ensures(implies(cache is not None, AMOK(result[1]) and result[1][2] == cache[2] and result[1][0].shape[1] == cache[0].shape[1]))
+    ensures(implies(cache is not None, AMOK(result[1], len(result[1][0]), result[1][0].shape[1], len(result[1][1])) and result[1][2] == cache[2] and result[1][0].shape[1] == cache[0].shape[1]))
     ensures(implies(cache is not None, COH(result[1], reads, CN, P, N, len(reads))))
     with defs():
         P = len(genotype)
@@ -160,5 +160,5 @@ def compound_step(genotype: A[i1, 2], reads: A[f8, 3], llk: float, intervals: A[
         invariant(implies(randomize, forall(0, n_intervals, lambda r: intervals[r, 0] == old(intervals)[perm0(r), 0] and intervals[r, 1] == old(intervals)[perm0(r), 1])))
         invariant(implies(not randomize, val(intervals) == old(intervals)))
         invariant(llk == LLK(reads, CN, genotype, P, N, len(reads)), VALIDG(genotype, NA, P, N))
-        invariant(implies(cache is not None, AMOK(cache) and cache[2] == P * N and forall(0, N, lambda y: NA[y] <= cache[0].shape[1])))
+        invariant(implies(cache is not None, AMOK(cache, len(cache[0]), cache[0].shape[1], len(cache[1])) and cache[2] == P * N and forall(0, N, lambda y: NA[y] <= cache[0].shape[1])))
         invariant(implies(cache is not None, COH(cache, reads, CN, P, N, len(reads))))
